@@ -147,6 +147,31 @@ def deviations_still_break(rep, pid, tier, wd, invariants):
             raise vlib.ToolError("deviation %s no longer violates the property in the model" % d)
 
 
+# self-test switches of a defect class (never on in a conformance run): switch -> (family whose universe reaches it, invariant)
+SELFTEST_SWITCHES = {
+    "SpellingSplit": ("K", "P_C05"),      # AddCertificate refuses a spelling of the text that ReplaceCertificate stores
+    "HealthCheckSplit": ("C", "P_C05"),   # the inline check of AddCluster refuses what SetHealthCheck stored
+}
+
+
+def selftest_switches(rep, pid, wd, switches=SELFTEST_SWITCHES):
+    """Each switch models a defect class the legs must reach; switched on, TLC must refute the invariant in the quick universe."""
+    def one(item):
+        d, (fam, inv) = item
+        maxobj, depth = BOUNDS["quick"][fam]
+        cfg = write_cfg(wd, "selftest_%s.cfg" % d, fam, maxobj, depth, False, "none", ["TypeOK", inv], dev=[d])
+        return d, inv, vlib.tlc(MODULE, cfg, pid, workers=2, timeout=600)
+
+    with concurrent.futures.ThreadPoolExecutor(max_workers=2) as ex:
+        for d, inv, r in ex.map(one, sorted(switches.items())):
+            rep.add_tlc(r)
+            if r["violated"] != inv:
+                raise vlib.ToolError("self-test: with the switch %s on TLC must refute %s in the quick universe, it reported %r: "
+                                     "the universe no longer reaches the defect class" % (d, inv, r["violated"]))
+            vlib.log("self-test switch %s: TLC counterexample to %s as expected" % (d, inv))
+    rep.extra["selftest_switches_refuted"] = sorted(switches)
+
+
 def replay(rep, pid, bins, mode, beh, variants, extra_args=(), threads=12, timeout=2400):
     """Run replay_config over `beh` once per concretisation variant; record violations; return summaries."""
     sums = []
